@@ -262,7 +262,7 @@ def rand_ocfg(rng, w):
     handler = "none"
     if rng.random() < w["handler"]:
         handler = rng.choice(["wrap", "wrap", "raises"])
-        if rng.random() < w.get("unsized_handlers", 0.0):      # (opt-in: the draw happens only for weights that ask for it)
+        if w.get("unsized_handlers") and rng.random() < w["unsized_handlers"]:      # (opt-in: no draw for weights that do not ask for it)
             handler = rng.choice(["count", "null"])
     return dict(alias=rng.choice(OUT_ALIASES), static=rng.random() < w["static"], handler=handler,
                 fail=rng.random() < 0.8, default=rng.choice([pv.none(), pv.i(0), pv.s("dflt"), pv.tup([pv.i(1)])]))
